@@ -78,6 +78,7 @@ impl Event {
             }
             if n == -1 {
                 flag_checksum = true;
+                checksum = 0; // every {...} group has its own checksum
                 continue;
             }
             a.push(n as u8);
